@@ -54,18 +54,23 @@ fn cycle_refs<T>(this: Link<T>) -> HashMap<Link<T>, usize> {
 
         let links = unsafe { node.as_ref().links().borrow() };
         for (&link, &strong) in links.iter() {
-            if let Kind::Forward | Kind::Loopback = link.kind() {
-                cycle_owned_refs
-                    .entry(link)
-                    .and_modify(|count| *count += strong)
-                    .or_insert(strong);
-                // A loopback link points at `node`, which has already been
-                // visited; crawling it again would double count its links.
-                if let Kind::Forward = link.kind() {
+            match link.kind() {
+                Kind::Forward => {
+                    cycle_owned_refs
+                        .entry(link)
+                        .and_modify(|count| *count += strong)
+                        .or_insert(strong);
                     discovered.push(link);
                 }
-            } else {
-                cycle_owned_refs.entry(link.as_forward()).or_default();
+                // A loopback link logs a self-adoption made through a single
+                // handle, which has no effect: no strong reference to `node`
+                // is stored for it. Giving it a key of its own would list
+                // `node` twice and make the orphan test compare `node`'s
+                // strong count with the number of such no-op adoptions.
+                Kind::Loopback => {}
+                Kind::Backward => {
+                    cycle_owned_refs.entry(link.as_forward()).or_default();
+                }
             }
         }
     }
